@@ -55,10 +55,12 @@ def items(ctx):
         N = rng.randint(3, 6)
         cands = [[[rng.choice(vals)] for _ in range(lq + rng.choice([0, 1, 1, 2]))] for _ in range(N)]
         st = {"s1": [[0]], "s2": [[0]], "inner": rng.choice(["sq", "eu"]), "w": rng.choice([1, 1, 2]),
-              "pen": 0, "ms": 0, "md": 0, "mld": -1, "psi": [0, 0, 0, 0]}
-        hist = [("kbest", rng.choice([1, 1, 2]))]
+              "pen": 0, "ms": 0, "md": rng.choice([0, 0, 2, 3, 4, 6]), "mld": -1, "psi": [0, 0, 0, 0]}
+        hist = [("kbest", rng.choice([1, 1, 2, -1]))]
         variants = [{"use_lb": True, "use_c": uc, "as_value": False} for uc in (False, True)]
-        out.append({"q": qs, "cands": cands, "S": 1, "set": st, "history": hist, "variants": variants})
+        # half of the group in half units (values 0, 0.5, ... 2.5): lower bounds below 1, where a bound that is
+        # transformed once too often (a stray sqrt) is no longer a lower bound
+        out.append({"q": qs, "cands": cands, "S": rng.choice([1, 2]), "set": st, "history": hist, "variants": variants})
     for k, it in enumerate(out):
         it["id"] = "c14-%d" % k
     return out
